@@ -71,10 +71,16 @@ def gen_cases(tier, seed):
                                     continue
                                 cases.append({'k': 'place', 'c': list(c), 'ds': list(ds), 'dn': dn, 'us': list(us), 'un': un,
                                               'coro': coro, 'aw': aw})
+    rnd = random.Random(seed)
     if tier == 'quick':
-        rnd = random.Random(seed)
         rnd.shuffle(cases)
         cases = cases[:1600]
+    for c in cases:
+        # the defined intermediate is a computed value or a reference obtained by a run-time subscript (whose index is the
+        # intermediate); the context optionally carries the zero_init_temporaries attribute (initial values at elaboration
+        # are no substitute for an assignment in the same activation)
+        c['defkind'] = 'ref' if rnd.random() < 0.3 else 'value'
+        c['zinit'] = rnd.random() < 0.2
     n = 240 if tier == 'quick' else 6000
     for i in range(n):
         cases.append({'k': 'dyn', 'gen': ('c03', 'c01', 'c04')[i % 3], 'seed': seed * 7919 + 104729 + i, 'tier': tier})
@@ -141,14 +147,14 @@ def build(case):
     return top
 
 
-def render(stmts, ind, L):
+def render(stmts, ind, L, defkind='value'):
     if not stmts:
         L.append('    ' * ind + 'pass')
     for s in stmts:
         p = '    ' * ind
         k = s[0]
         if k == 'DEF':
-            L.append(p + "t = (self.x + 1)")
+            L.append(p + ("t = (self.x + 1)" if defkind == 'value' else "t = m0[self.d]"))
         elif k == 'USE':
             L.append(p + "self.o0 <<= t")
         elif k == 'FILL':
@@ -158,27 +164,27 @@ def render(stmts, ind, L):
         elif k == 'if':
             for i, (c, b) in enumerate(s[1]):
                 L.append(p + f"{'if' if i == 0 else 'elif'} {c}:")
-                render(b, ind + 1, L)
+                render(b, ind + 1, L, defkind)
             if s[2] is not None:
                 L.append(p + "else:")
-                render(s[2], ind + 1, L)
+                render(s[2], ind + 1, L, defkind)
         elif k == 'match':
             L.append(p + "match self.d:")
             for pat, b in s[1]:
                 L.append(p + f"    case {pat}:")
-                render(b, ind + 2, L)
+                render(b, ind + 2, L, defkind)
             if s[2] is not None:
                 L.append(p + "    case _:")
-                render(s[2], ind + 2, L)
+                render(s[2], ind + 2, L, defkind)
         elif k == 'for':
             items = ', '.join(['(self.a, self.y)', '(self.b, self.x)', '(self.c, self.y)'][:s[1]])
             L.append(p + f"for fc, fv in [{items}]:")
             L.append(p + "    if fc:")
-            render(s[2], ind + 2, L)
+            render(s[2], ind + 2, L, defkind)
             L.append(p + "        break")
             if s[3] is not None:
                 L.append(p + "else:")
-                render(s[3], ind + 1, L)
+                render(s[3], ind + 1, L, defkind)
 
 
 def paths(stmts, state, use_ok):
@@ -234,12 +240,15 @@ def run_place(case):
         L.append(f"    {nme} = Port.input(Bit)")
     L += ["    d = Port.input(Unsigned[2])", "    x = Port.input(Unsigned[3])", "    y = Port.input(Unsigned[3])",
           "    o0 = Port.output(Unsigned[3], default=0)", "    o1 = Port.output(Unsigned[3], default=0)",
-          "    def architecture(self):", "        @std.sequential(std.Clock(self.clk))",
+          "    def architecture(self):", "        m0 = Signal[Array[Unsigned[3], 4]](name='m0')",
+          "        @std.sequential(std.Clock(self.clk))", "        def feed():", "            m0[self.d] <<= self.y",
+          "        @std.sequential(std.Clock(self.clk)" + (", attributes={'zero_init_temporaries': True})" if case.get('zinit') else ")"),
           f"        {'async ' if case['coro'] else ''}def proc():"]
-    render(sk, 3, L)
+    render(sk, 3, L, case.get('defkind', 'value'))
     src = '\n'.join(L) + '\n'
     sigkey = digest(case)
-    cls = f"{case['c'][0]}{'-coroutine' if case['coro'] else ''}{'-across-await' if case['aw'] else ''}"
+    cls = (f"{case['c'][0]}{'-coroutine' if case['coro'] else ''}{'-across-await' if case['aw'] else ''}"
+           f"{'-indexed-reference' if case.get('defkind') == 'ref' else ''}{'-zero-init' if case.get('zinit') else ''}")
     mod = load_source(src, 'c08')
     try:
         try:
